@@ -67,11 +67,11 @@ def _raises_list(r):
 
 class Contract:
     def __init__(self, key, prop, types=None, returns=None, requires=(), ensures=(), ensures_exc=(),
-                 raises=None, modifies=(), effects=(), loops=None, locals=None, inline=False, funcs=None,
+                 raises=None, modifies=None, effects=(), loops=None, locals=None, inline=False, funcs=None,
                  ghost=None, mode="prove", unroll=None, comps=None, name=None, setup=(), max_paths=None,
                  frame=None, lock=None, replay=None, timeout_ms=None, axioms=(), post_setup=(), pure_result=None, asserts=None, nonlinear=False, unreachable_ok=(),
                  region=None, sort_facts=True, feas_timeout_ms=None, named_seqs=False,
-                 fs_inv=(), fs_policy=(), fs_opts=None, call_pre=None, witnesses=None):
+                 fs_inv=(), fs_policy=(), fs_opts=None, call_pre=None, witnesses=None, abstract_str_order=False, label=""):
         self.key = key
         self.prop = prop if isinstance(prop, (list, tuple)) else [prop]
         self.short = name or key.split(":", 1)[1]
@@ -81,7 +81,10 @@ class Contract:
         self.ensures = _pairs(ensures, self.short)
         self.ensures_exc = _pairs(ensures_exc)
         self.raises = raises
-        self.modifies = list(modifies)
+        # modifies=None: frame not declared (legacy: callers havoc nothing and the use is listed as an assumption);
+        # a declared list (possibly empty) is *verified* against the body by Verifier.check_frame
+        self.modifies_declared = modifies is not None
+        self.modifies = list(modifies or [])
         self.effects = list(effects)
         self.loops = dict(loops or {})
         self.locals = dict(locals or {})
@@ -116,7 +119,9 @@ class Contract:
         # witnesses = {binder: ["lambda j: <spec expr over the function's locals>", ...]}: candidate witnesses for
         # `exists_fn(binder, ...)` clauses of this contract (only used when the clause is *proved*)
         self.witnesses = dict(witnesses or {})
+        self.abstract_str_order = abstract_str_order
         self.unreachable_ok = list(unreachable_ok)
+        self.label = label   # free text shown next to the contract name in reports
         self.pure_result = pure_result
         if pure_result is not None:
             self.ensures.append(("pure-result", "result == (%s)" % pure_result))
@@ -146,6 +151,9 @@ class Registry:
         self.fclauses = []
         self.assumed = []          # contracts used at call sites but not verified (dependencies)
         self.callable_uns = {}     # uninterpreted sort name -> funtype name (values of the sort are callables)
+        from .jsontree import TJObj, TJList
+        self.types.declare("JObj", TJObj())   # python-side JSON object model (bounded checks, see jsontree.py)
+        self.types.declare("JList", TJList())
 
     # --- declaration API used by /verif/contracts/*.py
     def record(self, name, fields, pyclass=None, dictlike=False):
@@ -156,11 +164,14 @@ class Registry:
         self.types.declare(name, t)
         return t
 
-    def dictshape(self, name, fields):
-        """a python dict with a fixed set of constant string keys, modelled as an (immutable, encodable) record so that
-        it can live in lists/maps.  A key declared as "k?" may be absent (encoded as Optional: none = absent; a present
-        key with value None is outside the model): d[k] raises KeyError, d.get(k[, dflt]) yields None/dflt, `k in d`
-        is false.  Other keys are always present.  Mutation of such a dict is unsupported."""
+    def keyrec(self, name, fields):
+        """a python dict with a fixed set of constant string keys, modelled as an (immutable, encodable) *record value* so
+        that it can live in lists/maps and compares with plain z3 datatype equality (cheap under quantifiers; use
+        R.dictshape -- presence bits, python dict equality -- when absent-key values must not influence `==`).
+        A key declared as "k?" may be absent (encoded as Optional: none = absent; a present key with value None is outside
+        the model): d[k] raises KeyError, d.get(k[, dflt]) yields None/dflt, `k in d` is false.  Other keys are always
+        present.  `{**d, "k": v}` yields the declared keyrec whose key set is the union.  Mutation is unsupported."""
+        self._fresh_name(name)
         fs, opt = {}, set()
         for k, v in fields.items():
             t = self.types.parse(v)
@@ -170,12 +181,17 @@ class Registry:
                 t = TOpt(t)
             fs[k] = t
         t = TRec(name, fs, None)
-        t.dictshape = True      # (not `dictlike`: that flag is R.record(..., dictlike=True), the has_k-style model)
+        t.dictshape = True      # (engine flag of this model; `dictlike` is R.record(..., dictlike=True), the has_k-style model)
         t.optkeys = opt
         self.types.declare(name, t)
         return t
 
+    def _fresh_name(self, name):
+        if name in self.types.named and name not in ("K", "V"):
+            raise ValueError("type name %r is declared twice across contract files (names are global)" % name)
+
     def objtype(self, name, fields, cls=None):
+        self._fresh_name(name)
         fs = {}
         for k, v in fields.items():
             fs[k] = v
@@ -186,6 +202,20 @@ class Registry:
 
     def dictrec(self, name, fields):
         t = TDictRec(fields)
+        self.types.declare(name, t)
+        return t
+
+    def mutrec(self, name, fields):
+        """mutable dict-shaped record with fixed string keys that lives *by value* inside maps / lists
+        (e.g. the edge records of the GEL store); see values.TMutRec"""
+        t = TMutRec(name, {k: self.types.parse(v) for k, v in fields.items()})
+        self.types.declare(name, t)
+        return t
+
+    def dictshape(self, name, required=None, optional=None):
+        """dict-shaped record (TDRec): a z3-encodable dict with fixed possible keys; `optional` keys may be absent"""
+        t = TDRec(name, {k: self.types.parse(v) for k, v in (required or {}).items()},
+                  {k: self.types.parse(v) for k, v in (optional or {}).items()})
         self.types.declare(name, t)
         return t
 
@@ -271,6 +301,8 @@ class Registry:
 
     def uf(self, name, argtypes, rettype):
         """uninterpreted (ghost) spec function; its defining axioms are given per contract (`axioms=`)"""
+        if name in self.spec_funcs or name in self.ufs or name in self.ghostfuns:
+            raise ValueError("spec name %r is declared twice across contract files (names are global)" % name)
         self.ufs[name] = ([self.types.parse(a) for a in argtypes], self.types.parse(rettype))
 
     def opaque(self, key, specname, argtypes=None, rettype=None):
@@ -304,6 +336,7 @@ class Verifier:
         self.no_if_conversion = bool(os.environ.get("PYVC_NO_IFCONV"))
         self.no_patterns = bool(os.environ.get("PYVC_NO_PATTERNS"))
         self.nonlinear = bool(os.environ.get("PYVC_NONLINEAR"))
+        self.abstract_str_order = False
         self.feas_timeout_ms = 400
         self.solver_s = 0.0
         self.queries = 0
@@ -853,6 +886,7 @@ class Verifier:
         saved_to = self.timeout_ms
         saved_nl = self.nonlinear
         self.nonlinear = self.nonlinear or c.nonlinear
+        self.abstract_str_order = bool(getattr(c, 'abstract_str_order', False))
         if c.timeout_ms:
             self.timeout_ms = c.timeout_ms
         saved_feas = self.feas_timeout_ms
@@ -882,6 +916,7 @@ class Verifier:
             self.nonlinear = saved_nl
             self.feas_timeout_ms = saved_feas
             self.feas_rlimit = None
+            self.abstract_str_order = False
         if self.exits == 0 and not self.errors:
             self.errors.append("vacuous: no path reaches a function exit (contradictory requires?)")
         # reachability guard against vacuous proofs: every statement of the function must be executed on some path
@@ -911,7 +946,7 @@ class Verifier:
                                    "(contradictory assumptions / too strong precondition?); list them in unreachable_ok "
                                    "with a reason if intended" % (missing, c.key))
         return {
-            "key": c.key, "short": c.short, "prop": c.prop, "mode": c.mode,
+            "key": c.key, "short": c.short, "prop": c.prop, "mode": c.mode, "label": c.label,
             "source_sha": frontend.source_hash(mod, node),
             "lines": (node.lineno, node.end_lineno),
             "paths": self.paths, "exits": self.exits, "queries": self.queries,
@@ -1014,6 +1049,8 @@ class Verifier:
             except PyRaise as pr:
                 exc = pr.exc
             self.exits += 1
+            if exc is None or (c.raises is not None and any(exc_is_sub(exc.cls, cls) for cls, _ in c.raises_list())):
+                self.check_frame(c, I, path, inputs, node)
             if exc is not None:
                 self.check_exceptional_exit(c, I, path, env, exc)
             else:
@@ -1033,6 +1070,65 @@ class Verifier:
             return
         except (BreakSig, ContinueSig):
             self.errors.append("break/continue outside loop")
+
+    def check_frame(self, c, I, path, inputs, node):
+        """soundness of `modifies`: a contract that callers use modularly (call_contract havocs exactly its
+        `modifies`) must not change any other heap location reachable from its parameters.  At every exit of the
+        verified body each such location is compared with its entry snapshot; a difference is the named obligation
+        `<fn>/frame:<path>` (unchanged terms are skipped without a solver query)."""
+        if self.contracts.get(c.key) is not c or c.inline or node.name == "__init__" or not c.modifies_declared:
+            return
+        cov = []
+        for m in c.modifies:
+            try:
+                cov.append(ast.unparse(ast.parse(m.strip(), mode="eval").body))
+            except SyntaxError:
+                cov.append(m)
+
+        def covered(p):
+            return any(p == m or p.startswith(m + ".") or p.startswith(m + "[") for m in cov)
+
+        def same_terms(xs, ys):
+            return all(x is y or (x is not None and y is not None and x.eq(y)) for x, y in zip(xs, ys))
+
+        seen = set()
+
+        def walk(cur, old, p):
+            if covered(p) or cur is None or old is None or id(cur) in seen:
+                return
+            if isinstance(cur, (VObj, VDictRec)):
+                seen.add(id(cur))
+                if type(old) is not type(cur):
+                    path.prove(z3.BoolVal(False), "%s/frame:%s" % (c.short, p), "frame", where="modifies " + ", ".join(cov))
+                    return
+                keys = list(cur.fields)
+                if isinstance(cur, VDictRec) and set(keys) != set(old.fields):
+                    path.prove(z3.BoolVal(False), "%s/frame:%s" % (c.short, p), "frame", where="keys of %s changed" % p)
+                for f in keys:
+                    sub = ("%s.%s" % (p, f)) if isinstance(cur, VObj) else ("%s[%r]" % (p, f))
+                    walk(cur.fields[f], old.fields.get(f), sub)
+                return
+            if isinstance(cur, (VFunc, VClass, VModule, VOpaque, VOptObj)):
+                return
+            try:
+                if isinstance(cur, VSeq) and isinstance(old, VSeq) and same_terms([cur.arr, cur.n], [old.arr, old.n]):
+                    return
+                if isinstance(cur, VMap) and isinstance(old, VMap) and same_terms([cur.dom, cur.val, cur.card], [old.dom, old.val, old.card]) \
+                        and (cur.order is None or same_terms([cur.order.arr], [old.order.arr])):
+                    return
+                if isinstance(cur, VSet) and isinstance(old, VSet) and same_terms([cur.dom, cur.card], [old.dom, old.card]):
+                    return
+                phi = I.eq(cur, old)
+                if isinstance(cur, VMap) and cur.order is not None and isinstance(old, VMap) and old.order is not None:
+                    phi = z3.And(phi, I.eq(VSeq(cur.order.arr, cur.order.n, cur.kt, "list"),
+                                           VSeq(old.order.arr, old.order.n, old.kt, "list")))
+            except Unsupported:
+                return
+            path.prove(phi, "%s/frame:%s" % (c.short, p), "frame", where="not in modifies [%s]" % ", ".join(cov))
+
+        for pname, v in inputs.items():
+            if isinstance(v, (VObj, VDictRec, VSeq, VMap, VSet)):
+                walk(v, I.old_env.lookup(pname), pname)
 
     def check_exceptional_exit(self, c, I, path, env, exc):
         if c.raises is None:
